@@ -811,6 +811,8 @@ class Flow:
                     self.kind_for_root[root] = kinds[i]
         summ = Summary()
         self.stack = []
+        # sequences of known length written out by position (model.positional)
+        fd = self.m.positional(fd)
         ret = self.run_function(fd, penv, summ, 0, owner, mapper=selfcls)
         summ.ret = ret
         mi = self.m.module_of(fd)
